@@ -47,6 +47,14 @@ IsLogical == Len(frames) = 2
 Init == /\ \E n \in 1..MaxLines : frames = <<NewFrame(n, FALSE)>>
         /\ pc = "head" /\ result = "" /\ iters = 0 /\ act = "init"
 
+(* --- how much one iteration may lengthen the input -------------------------------------------
+   One iteration rewrites one logical line: it inserts one `![` `]` pair (3 characters with the blank) and
+   may re-split a continued line (a line-continuation character and a blank per physical line).  The
+   bound is deliberately generous; what it excludes is growth *proportional to the input* - an iteration
+   that doubles the line turns a bounded loop into exponential work (the defect repaired in f004328). *)
+Growth(n) == 16 + 4 * n
+LenOK(old, new, n) == new <= old + Growth(n)
+
 (* --- one loop iteration that stays in the same _try_parse -------------------------------- *)
 \* the parser failed at a new location and the loop rewrote the input (wrapped a line), deleted a
 \* blank / comment-only line, or switched to greedy wrapping
